@@ -23,6 +23,14 @@ inductive GTy
   | opt (t : GTy)
   /-- `fun(): ret` -/
   | fn (ret : GTy)
+  /-- `[a, b]` -/
+  | tup (a b : GTy)
+  /-- `[a, b, c]` -/
+  | tup3 (a b c : GTy)
+  /-- `{k1: a, k2: b}` (keys in sorted order, as `object_tpl_pattern_match` visits them) -/
+  | obj2 (k1 : Name) (a : GTy) (k2 : Name) (b : GTy)
+  /-- `fun(x: p): r` -/
+  | fn1 (p r : GTy)
 deriving DecidableEq, Repr
 
 abbrev Subst := List (Nat × GTy)
@@ -51,6 +59,11 @@ def tplMatch : GTy → GTy → Subst → Subst
   | .tgen pk pv, .tgen ak av, s => tplMatch pv av (tplMatch pk ak s)
   | .opt p, a, s => tplMatch p (stripNil a) s
   | .fn pr, .fn ar, s => tplMatch pr ar s
+  | .tup p1 p2, .tup a1 a2, s => tplMatch p2 a2 (tplMatch p1 a1 s)
+  | .tup3 p1 p2 p3, .tup3 a1 a2 a3, s => tplMatch p3 a3 (tplMatch p2 a2 (tplMatch p1 a1 s))
+  | .obj2 k1 p1 k2 p2, .obj2 j1 a1 j2 a2, s =>
+    if k1 = j1 ∧ k2 = j2 then tplMatch p2 a2 (tplMatch p1 a1 s) else s
+  | .fn1 pp pr, .fn1 ap ar, s => tplMatch pr ar (tplMatch pp ap s)
   | _, _, s => s
 
 /-- `tpl_pattern_match_args` -/
@@ -80,6 +93,10 @@ def instantiate : GTy → Subst → GTy
   | .tgen k v, s => .tgen (instantiate k s) (instantiate v s)
   | .opt t, s => .opt (instantiate t s)
   | .fn r, s => .fn (instantiate r s)
+  | .tup a b, s => .tup (instantiate a s) (instantiate b s)
+  | .tup3 a b c, s => .tup3 (instantiate a s) (instantiate b s) (instantiate c s)
+  | .obj2 k1 a k2 b, s => .obj2 k1 (instantiate a s) k2 (instantiate b s)
+  | .fn1 p r, s => .fn1 (instantiate p s) (instantiate r s)
 
 /-- the substitution `p[σ]` on patterns -/
 def gsubst (σ : Nat → GTy) : GTy → GTy
@@ -89,6 +106,10 @@ def gsubst (σ : Nat → GTy) : GTy → GTy
   | .tgen k v => .tgen (gsubst σ k) (gsubst σ v)
   | .opt t => .opt (gsubst σ t)
   | .fn r => .fn (gsubst σ r)
+  | .tup a b => .tup (gsubst σ a) (gsubst σ b)
+  | .tup3 a b c => .tup3 (gsubst σ a) (gsubst σ b) (gsubst σ c)
+  | .obj2 k1 a k2 b => .obj2 k1 (gsubst σ a) k2 (gsubst σ b)
+  | .fn1 p r => .fn1 (gsubst σ p) (gsubst σ r)
 
 def vars : GTy → List Nat
   | .base _ => []
@@ -97,6 +118,10 @@ def vars : GTy → List Nat
   | .tgen k v => vars k ++ vars v
   | .opt t => vars t
   | .fn r => vars r
+  | .tup a b => vars a ++ vars b
+  | .tup3 a b c => vars a ++ vars b ++ vars c
+  | .obj2 _ a _ b => vars a ++ vars b
+  | .fn1 p r => vars p ++ vars r
 
 def noOpt : GTy → Bool
   | .base _ | .v _ => true
@@ -104,9 +129,37 @@ def noOpt : GTy → Bool
   | .tgen k v => noOpt k && noOpt v
   | .opt _ => false
   | .fn r => noOpt r
+  | .tup a b => noOpt a && noOpt b
+  | .tup3 a b c => noOpt a && noOpt b && noOpt c
+  | .obj2 _ a _ b => noOpt a && noOpt b
+  | .fn1 p r => noOpt p && noOpt r
 
 /-- inferred type of `f(args…)` for `f : fun(params…): ret` -/
 def inferCall (params args : List GTy) (ret : GTy) : GTy :=
   instantiate ret (tplMatchArgs params args [])
+
+/-! ## call arguments: only the last argument expands to several values -/
+
+/-- an argument expression: a plain value, a call returning the listed values, or `...` of a type -/
+inductive Arg
+  | one (g : GTy)
+  | multi (gs : List GTy)
+  | vararg (g : GTy)
+deriving DecidableEq, Repr
+
+/-- the argument types lined up with the parameters (`n` parameters are still unmatched):
+a call that is not the last argument contributes its first value, the last one all of them
+(`infer_generic_types_from_call` matches `func_params[i..]` against the multi-return) -/
+def expandArgs : Nat → List Arg → List GTy
+  | _, [] => []
+  | _, [.multi gs] => gs
+  | n, [.vararg g] => List.replicate n g
+  | n, .one g :: rest => g :: expandArgs (n - 1) rest
+  | n, .multi gs :: rest => gs.headD (.base (.prim .nil)) :: expandArgs (n - 1) rest
+  | n, .vararg g :: rest => g :: expandArgs (n - 1) rest
+
+/-- inferred type of `f(args…)` with argument expressions -/
+def inferCallA (params : List GTy) (args : List Arg) (ret : GTy) : GTy :=
+  inferCall params (expandArgs params.length args) ret
 
 end TyM
